@@ -266,6 +266,32 @@ pub async fn scenario_c07() {
 		}
 		world.drop_stop_handle();
 	}
+	// behind the library's GET proxy the message that counts is the call the proxy generates, not whatever body (and
+	// Content-Length) the GET request happened to carry
+	if rt::chance("get_proxy", 1, 8) {
+		rt::probe("get_proxy");
+		let (stop, _handle) = jsonrpsee_server::stop_channel();
+		let http_mw = tower::ServiceBuilder::new().layer(jsonrpsee_server::middleware::http::ProxyGetRequestLayer::new([("/health", "echo")]).expect("valid path"));
+		let world = World::new(SrvCfg { entry, ..Default::default() });
+		let mut svc = jsonrpsee_server::Server::builder()
+			.set_config(jsonrpsee_server::ServerConfig::builder().max_request_body_size(100).build())
+			.set_http_middleware(http_mw)
+			.to_service_builder()
+			.build(world.methods.clone(), stop);
+		let n = *rt::pick("get_body_len", &[0usize, 50, 100, 101, 200]);
+		let mut b = http::Request::builder().method("GET").uri("/health").header("host", "sim.invalid");
+		if n > 0 || rt::chance("explicit_zero_length", 1, 2) {
+			b = b.header("content-length", n.to_string());
+		}
+		let req = b.body(http_body_util::Full::new(bytes::Bytes::from(vec![b' '; n]))).unwrap();
+		if let Ok(r) = tower::Service::call(&mut svc, req).await {
+			let rep = world::collect_response(r).await;
+			rt::event("get-proxy-reply", format!("body of {n} bytes -> {} {}", rep.status, String::from_utf8_lossy(&rep.body)));
+			if rep.status != 200 {
+				rt::violate(P, "within-limit-not-processed", "get-proxy:stale-content-length", format!("GET /health through the GET proxy (generated call of 49 bytes, limit 100) carrying a body of {n} bytes was answered {} instead of being processed", rep.status));
+			}
+		}
+	}
 	// the outcome depends only on the request limit
 	for (i, (a, b)) in per_world[0].iter().zip(per_world[1].iter()).enumerate() {
 		if a.0 != b.0 {
